@@ -26,6 +26,42 @@ TOK = re.compile(r"""
 """, re.X)
 
 
+def method_body(src, name, nth):
+    """Body of the nth *definition* `name(...) [const] [noexcept] {` whose name is preceded by a return type (or, for
+    constructors/destructors, by the start of a declaration) - calls such as `_queue.empty()` are not definitions."""
+    hits = []
+    for m in re.finditer(r"(?<![\w~])%s\s*\(" % re.escape(name), src):
+        k = m.start() - 1
+        while k >= 0 and src[k] in " \t\r\n":
+            k -= 1
+        prev = src[k] if k >= 0 else ";"
+        if name.startswith("~") or name == "BlockingQueue":
+            ok = prev in ";{}:" or src[max(0, k - 7):k + 1].endswith("explicit")
+        else:
+            ok = (prev.isalnum() or prev in "_>&*") and not re.search(r"\b(return|else|new|delete|throw)$", src[max(0, k - 10):k + 1])
+        if not ok:
+            continue
+        i = m.end() - 1
+        depth = 0
+        j = i
+        while j < len(src):
+            if src[j] == "(":
+                depth += 1
+            elif src[j] == ")":
+                depth -= 1
+                if depth == 0:
+                    break
+            j += 1
+        mm = re.match(r"\s*(?:const\s*)?(?:noexcept\s*)?(?:override\s*)?\{", src[j + 1:])
+        if not mm:
+            continue
+        b = j + 1 + mm.end() - 1
+        hits.append(src[b + 1:cxxscan.match_brace(src, b)])
+    if len(hits) <= nth:
+        raise cxxscan.ScanError("method %s (definition %d) not found" % (name, nth))
+    return hits[nth]
+
+
 def skeleton(body, where):
     ev = []
     depth = 0
@@ -86,6 +122,10 @@ def skeleton(body, where):
             covered.append(m.start())
         elif m.group("callclose"):
             ev.append(("call", "close", held))
+    for g in guards:      # end of the function body = scope exit of the remaining guards
+        if g[3]:
+            ev.append(("unlock", g[1], ",".join(sorted({h[1] for h in guards if h[3]}))))
+            g[3] = False
     for v in SHARED:
         for m in re.finditer(r"(?<![\w])%s\b" % re.escape(v), body):
             if m.start() not in covered:
@@ -99,11 +139,11 @@ def gen(repo):
     rows = []
     for name, count in METHODS:
         for k in range(count):
-            body = cxxscan.function_body(src, name, nth=k)
+            body = method_body(src, name, k)
             where = "%s#%d" % (name, k)
             rows.append((where, skeleton(body, "BlockingQueue::" + where)))
         try:
-            cxxscan.function_body(src, name, nth=count)
+            method_body(src, name, count)
         except cxxscan.ScanError:
             pass
         else:
